@@ -278,7 +278,7 @@ pub fn prop() -> Prop<LimitCase> {
             "no input is known to make a handler panic on the repaired tree, so the 'handler panic' ending is represented by the error endings; a panic would take the same Drop path",
         ],
         needs_shim: false,
-        budget: |t| t.pick(480, 8000),
+        budget: |t| t.pick(480, 6000),
         shards: |_| 16,
         strategy,
         exec,
